@@ -12,6 +12,9 @@ size_t wb_g_slot;          /* arbitrary result slot (ghost index), chosen by the
  *        loop invariants and in any contract clause.  SAMEL implies SAME; SAME implies SAMEL except on NaN. */
 #define SAME(a, b) (((a) == (b) && __CPROVER_signd(a) == __CPROVER_signd(b)) || ((a) != (a) && (b) != (b)))
 #define SAMEL(a, b) (*(const unsigned long *)&(a) == *(const unsigned long *)&(b))
+/* SAMEV(lv, v): the memory cell lv holds the computed value v, NaN-canonically (see WB_CANON): equal as values and,
+ * if NaN, the canonical NaN - so that lv can be fed to further structurally named expressions */
+#define SAMEV(lv, v) (SAME(lv, v) && ((lv) == (lv) || SAMEL(lv, wb_qnan_u.d)))
 #define FINITE(x) ((x) == (x) && (x) != WB_INFINITY && (x) != -WB_INFINITY)
 #define IS_BOOL(b) ((b) == 0 || (b) == 1)
 
@@ -81,6 +84,16 @@ unsigned char g_allvalid, g_invel;
 #define UA32(M, b, ...) (UA16(M, b, __VA_ARGS__) && UA16(M, (b) + 16, __VA_ARGS__))
 #define UA64(M, b, ...) (UA32(M, b, __VA_ARGS__) && UA32(M, (b) + 32, __VA_ARGS__))
 #define FORALL_K(M, ...) SPEC_CAT(UA, MAXP)(M, 0, __VA_ARGS__)
+
+/* SUM_K(M, args...) : sum of M(k, args...) over k in [0, MAXP) - unrolled */
+#define US1(M, b, ...) ((size_t)(M(b, __VA_ARGS__)))
+#define US2(M, b, ...) (US1(M, b, __VA_ARGS__) + US1(M, (b) + 1, __VA_ARGS__))
+#define US4(M, b, ...) (US2(M, b, __VA_ARGS__) + US2(M, (b) + 2, __VA_ARGS__))
+#define US8(M, b, ...) (US4(M, b, __VA_ARGS__) + US4(M, (b) + 4, __VA_ARGS__))
+#define US16(M, b, ...) (US8(M, b, __VA_ARGS__) + US8(M, (b) + 8, __VA_ARGS__))
+#define US32(M, b, ...) (US16(M, b, __VA_ARGS__) + US16(M, (b) + 16, __VA_ARGS__))
+#define US64(M, b, ...) (US32(M, b, __VA_ARGS__) + US32(M, (b) + 32, __VA_ARGS__))
+#define SUM_K(M, ...) SPEC_CAT(US, MAXP)(M, 0, __VA_ARGS__)
 
 /* C globals start at zero: every harness must make its ghost constants arbitrary first */
 #define HAVOC(x) do { __typeof__(x) nd_; (x) = nd_; } while (0)
